@@ -1,0 +1,8 @@
+//go:build !verif
+
+package object
+
+import "io"
+
+// verifSaveWriter is the identity in normal builds (see verif_crash.go, build tag `verif`).
+func verifSaveWriter(w io.Writer) io.Writer { return w }
